@@ -136,11 +136,37 @@ def gen_bs(rng, tier):
     return cases
 
 
+def gen_hp_spread(rng, tier):
+    """the dense-arena cases, and every third one again with the nodes > 2^32 bytes apart
+    (all address patterns: pointer differences that do not fit in 32 bits)"""
+    cases = gen_hp(rng, tier)
+    out = []
+    for i, c in enumerate(cases):
+        out.append(c)
+        if i % 3 == 0:
+            e = dict(c["env"])
+            e["VH_SPREAD"] = 1
+            out.append({"args": c["args"], "env": e})
+    return out
+
+
+def _mpmc_part():
+    from specs_c13 import SPEC as S13
+    p = dict(S13["C13"]["parts"][0])
+    p["name"] = "mpmc"
+    g = p["gen"]
+    p["gen"] = lambda rng, tier: g(rng, tier)[: (300 if tier != "thorough" else 3000)]
+    return p
+
+
 SPEC = {
     "C14": {
         "parts": [
-            {"name": "hp", "harness": "hazard", "model": "Hp", "gen": gen_hp, "post": post_hp},
+            {"name": "hp", "harness": "hazard", "model": "Hp", "gen": gen_hp_spread, "post": post_hp},
             {"name": "bsearch", "harness": "hazard", "model": "Hp", "gen": gen_bs},
+            # "no structure built on it dereferences a reclaimed node": the structure built on
+            # it in this library is the MPMC FIFO (C13's model and poison-read oracle)
+            _mpmc_part(),
         ],
         "trusted_base": [
             "qsort(plist) with hazard_pointer_compare yields the sorted permutation (libc, trusted)",
